@@ -201,9 +201,9 @@ pub fn check_queries(o: &mut Object, expected: &J, keys: &[String]) -> Option<J>
 	{
 		let ob: &Object = o;
 		let routes: [(&str, Option<String>); 3] = [
-			("iter", iter_routes(&|| ob.iter().map(entry_j))),
-			("&Object into_iter", iter_routes(&|| ob.into_iter().map(entry_j))),
-			("Object into_iter", iter_routes(&|| ob.clone().into_iter().map(|e| entry_j(&e)))),
+			("iter", iter_routes(&|| ob.iter(), &|e| entry_j(e))),
+			("&Object into_iter", iter_routes(&|| ob.into_iter(), &|e| entry_j(e))),
+			("Object into_iter", iter_routes(&|| ob.clone().into_iter(), &|e| entry_j(&e))),
 		];
 		for (name, r) in routes {
 			if let Some(route) = r {
@@ -249,11 +249,11 @@ pub fn check_queries(o: &mut Object, expected: &J, keys: &[String]) -> Option<J>
 		{
 			let ob: &Object = o;
 			let routes: [(&str, Option<String>); 5] = [
-				("indexes_of", iter_routes(&|| ob.indexes_of(k).map(|i| json!(i)))),
-				("get", iter_routes(&|| ob.get(k).map(unval))),
-				("get_entries", iter_routes(&|| ob.get_entries(k).map(entry_j))),
-				("get_with_index", iter_routes(&|| ob.get_with_index(k).map(|(i, v)| json!([i, unval(v)])))),
-				("get_entries_with_index", iter_routes(&|| ob.get_entries_with_index(k).map(|(i, e)| json!([i, entry_j(e)])))),
+				("indexes_of", iter_routes(&|| ob.indexes_of(k), &|i| json!(i))),
+				("get", iter_routes(&|| ob.get(k), &|v| unval(v))),
+				("get_entries", iter_routes(&|| ob.get_entries(k), &|e| entry_j(e))),
+				("get_with_index", iter_routes(&|| ob.get_with_index(k), &|(i, v)| json!([i, unval(v)]))),
+				("get_entries_with_index", iter_routes(&|| ob.get_entries_with_index(k), &|(i, e)| json!([i, entry_j(e)]))),
 			];
 			for (name, r) in routes {
 				if let Some(route) = r {
